@@ -104,6 +104,7 @@ pub fn complex_pair(
         if o.trivial {
             loc.add("bbox_shortcut_taken", 1);
         }
+        o.count_paths(loc);
         let res = match o.res {
             Err(msg) => {
                 loc.add("panics", 1);
@@ -285,6 +286,7 @@ impl TableSpec {
     pub fn build(&self) -> Table {
         match self.kind.as_str() {
             "P" => Table::new(&self.name, self.seed, self.n, self.scale, self.f32, 60),
+            "PS" => Table::with_design(&self.name, self.seed, self.n, self.scale, self.f32, 60, Some(&SPIKE_DESIGN)),
             "L2i" => lattice_table(&self.name, false, false),
             "L2s" => lattice_table(&self.name, true, false),
             "L2i21" => lattice_table(&self.name, false, true),
@@ -293,7 +295,7 @@ impl TableSpec {
     }
     pub fn tol(&self, ft: Ft) -> f64 {
         let mag = match self.kind.as_str() {
-            "P" => self.scale,
+            "P" | "PS" => self.scale,
             "L2s" => 0.274,
             _ => 2.0,
         };
@@ -449,7 +451,7 @@ pub fn table_pair(
     let mut edges = a.edges.clone();
     edges.extend(b.edges.iter().cloned());
     let wit = witnesses(&edges, tol);
-    let exact_family = spec.kind != "P";
+    let exact_family = spec.kind != "P" && spec.kind != "PS";
     // self-crossing operands are in the domain of the region clause of C01 only
     let valid = a.kind != Kind::Bowtie && b.kind != Kind::Bowtie;
     let want = &Want {
@@ -476,6 +478,7 @@ pub fn table_pair(
         if o.trivial {
             loc.add("bbox_shortcut_taken", 1);
         }
+        o.count_paths(loc);
         let res = match o.res {
             Err(msg) => {
                 loc.add("panics", 1);
@@ -652,7 +655,7 @@ pub fn sweep_table(st: &Stats, prop: &str, spec: &TableSpec, ft: Ft, want: &Want
             let out = table_pair(&t, spec, ia, ib, ft, want, &mut loc);
             loc.add("witness_sides", out.sides as u64);
             loc.add(
-                if spec.kind == "P" {
+                if spec.kind == "P" || spec.kind == "PS" {
                     "faces_skipped_general_position_tables"
                 } else {
                     "faces_skipped_lattice_triangles"
@@ -809,6 +812,14 @@ pub fn p_spec(n: usize, seed: u64, scale: f64, f32: bool) -> TableSpec {
         f32,
     }
 }
+/// The spike table: subject pentagon (0.1,-0.1),(0.6,0.4),(0.2,0.6),(0.45,0.7),(0.9,0.2) whose reflex spike at
+/// (0.6,0.4) separates its edge towards (0.9,0.2) from the long edge (0,0)-(1,0.5) of a clipping triangle that
+/// was already split further left: the crossing is only found when the spike's edges leave the sweep line
+/// (the post-removal neighbour check of `subdivide`). All operands over these 9 points are enumerated.
+pub const SPIKE_DESIGN: [P; 9] = [(0.1, -0.1), (0.6, 0.4), (0.2, 0.6), (0.45, 0.7), (0.9, 0.2), (0.0, 0.0), (1.0, 0.5), (0.0, 1.0), (0.75, 0.85)];
+pub fn spike_spec(seed: u64) -> TableSpec {
+    TableSpec { name: format!("PS9s{seed}"), kind: "PS".into(), seed, n: 9, scale: 1.0, f32: false }
+}
 pub fn l_spec(kind: &str) -> TableSpec {
     TableSpec {
         name: kind.into(),
@@ -892,6 +903,7 @@ pub fn run(prop: &str, tier: &str) -> i32 {
             PairSet::WithTriangle,
         );
     }
+    sweep_table(&st, prop, &spike_spec(seed), Ft::F64, &want, PairSet::WithTriangle);
     sweep_table(&st, prop, &l_spec("L2i"), Ft::F64, &want, PairSet::All);
     sweep_table(&st, prop, &l_spec("L2s"), Ft::F64, &want, PairSet::All);
     if thorough {
